@@ -68,8 +68,16 @@ def main():
         ap.print_help()
         return 2
     if args.target[0] == "selftest":
-        from dsim import selftest
-        return selftest.main(args.target[1:], args, seed)
+        # determinism: tools/selftest_determinism.sh; models: the self_test() of each property module (also run by every check)
+        import subprocess
+        if args.target[1:2] == ["models"]:
+            for p in (args.target[2:] or available()):
+                st = getattr(runner.load(p.upper()), "self_test", None)
+                if st is not None:
+                    st()
+                print("%s model self-test ok" % p.upper())
+            return 0
+        return subprocess.call([os.path.join(HERE, "tools", "selftest_determinism.sh")] + args.target[2:])
     if args.target[0] == "all":
         rc = 0
         for p in available():
